@@ -52,6 +52,12 @@ func Witnesses(prop string) []*Case {
 		out = append(out, &Case{Name: "w14-seen-collision", N: 4, Limits: make([]int, 4), Settle: true,
 			Ops: cat(ops(Op{K: "connect", A: 0, B: 1}, Op{K: "connect", A: 2, B: 3}, cidr(0, 1), ann(0)), drain(3), ops(ann(1), ann(1)), drain(4),
 				ops(Op{K: "connect", A: 1, B: 2}), drain(8), ops(Op{K: "advance", D: 10}, ann(0)), drain(8))})
+		// agent 2 learns (0,2) over two paths (the second after its seen entry was forgotten), then replays to a new peer:
+		// the merged SendFullTable sends one advertisement for (0,2), the larger group
+		out = append(out, &Case{Name: "w14-two-paths-one-replay", N: 5, Limits: make([]int, 5), Settle: true,
+			Ops: cat(ops(Op{K: "connect", A: 0, B: 1}, Op{K: "connect", A: 0, B: 3}, Op{K: "connect", A: 1, B: 2}, Op{K: "connect", A: 3, B: 2},
+				cidr(0, 1), ann(0), Op{K: "deliver", I: 0}, Op{K: "deliver", I: 1}, Op{K: "forget", A: 2, Origin: 0, Seq: 2},
+				Op{K: "deliver", I: 0}, Op{K: "deliver", I: 1}), drain(6), ops(Op{K: "connect", A: 2, B: 4}), drain(8))})
 	case "C15":
 		out = append(out, &Case{Name: "w15-chain3-limit1", N: 3, Limits: []int{1, 1, 1}, Settle: true,
 			Ops: cat(chainLinks(3), ops(cidr(0, 1), ann(0)), drain(6))})
